@@ -194,12 +194,12 @@ struct Stack {
     c: c05::Case,
     u2: Option<(c05::Lex, String)>,
 }
-fn gen_stack(st: u64, user: bool, scratch_dir: &std::path::Path) -> Stack {
+fn gen_stack(st: u64, user: bool, special: Option<usize>, scratch_dir: &std::path::Path) -> Stack {
     let mut r = Rng(st);
     let mut scratch = Sink::new("C11", &scratch_dir.join("scratch"), &[], 0, "quick");
     // the case generator of C05 makes the second user lexicon (U-references that differ between split A, split B and word
     // structure) as part of every user case
-    let c = c05::gen_case(&mut r, &mut scratch, user, false, false);
+    let c = c05::gen_case_with(&mut r, &mut scratch, user, false, false, special);
     let u2 = c.user2.clone().map(|l| (l, c.user2_csv.clone()));
     Stack { c, u2 }
 }
@@ -229,12 +229,17 @@ fn load_stack(stk: &Stack) -> Option<LoadedStack> {
 
 fn word_level(sink: &mut Sink, rng: &mut Rng, n_dicts: usize, exhaustive_words: usize) {
     let mut exhaustive_left = exhaustive_words;
-    for k in 0..n_dicts {
+    // first, whatever the seed: the directed lexicons of C05 whose split A / split B / word structure / synonym arrays have
+    // 0, 1, 63, 64, 65, 127 items in rotating positions (as a system lexicon, and as the first user lexicon of a stack)
+    let directed = c05::ARRAY_VARIANTS;
+    for k0 in 0..directed + n_dicts {
+        let special = if k0 < directed { Some(c05::ARRAYS_BASE + k0) } else { None };
+        let k = if k0 < directed { k0 } else { k0 - directed };
         let st = rng.next();
         let user = k % 2 == 1;
-        let stk = gen_stack(st, user, &sink.dir.clone());
+        let stk = gen_stack(st, user, special, &sink.dir.clone());
         let c = &stk.c;
-        let desc = |dic: u8, wid: usize, kind: &str| json!({"kind": "c11-word", "rng": st, "user": user, "dic": dic, "word": wid, "variant": kind, "csv": if c.sys_csv.len() < 1200 { c.sys_csv.clone() } else { String::new() }, "user_csv": if c.user_csv.len() < 1200 { c.user_csv.clone() } else { String::new() },
+        let desc = |dic: u8, wid: usize, kind: &str| json!({"kind": "c11-word", "rng": st, "user": user, "special": special, "dic": dic, "word": wid, "variant": kind, "csv": if c.sys_csv.len() < 1200 { c.sys_csv.clone() } else { String::new() }, "user_csv": if c.user_csv.len() < 1200 { c.user_csv.clone() } else { String::new() },
             "user2_csv": stk.u2.as_ref().map(|x| if x.1.len() < 1200 { x.1.clone() } else { String::new() }).unwrap_or_default()});
         if !user {
             let sys_bytes = match c05::compile_system(&c.sys_csv, &c.matrix_text, c.time, &c.descr) {
@@ -278,7 +283,7 @@ fn word_level(sink: &mut Sink, rng: &mut Rng, n_dicts: usize, exhaustive_words: 
             };
             let _ = &ls.sys_bytes;
             let n1 = c.user.as_ref().map(|u| u.rows.len()).unwrap_or(0);
-            for wid in 0..n1.min(2) {
+            for wid in 0..(if special.is_some() { n1 } else { n1.min(2) }) {
                 word_case(sink, &ls.jd, &ls.u1, true, 1, ls.loaded_nsys, ls.loaded_nsys, wid as u32, &sampled(rng, 30), desc(1, wid, "user-1"));
             }
             let n2 = stk.u2.as_ref().map(|u| u.0.rows.len()).unwrap_or(0);
@@ -829,10 +834,192 @@ fn lookup_level(sink: &mut Sink, rng: &mut Rng, n: usize) {
     }
 }
 
+// ---------------------------------------------------------------- split_into a list that has a history
+/// What MorphemeList::split_into(mode, index, out) promises (mlist.rs): when the morpheme has no split in that mode it
+/// returns false and leaves `out` alone; otherwise `out` is re-pointed to the input of the list being split, the parts are
+/// APPENDED to whatever `out` held (it is not cleared), they are loaded with the subset of the list being split -- not with
+/// whatever `out` carried from its previous life -- and `out` reports that subset from then on.
+/// The previous lives of `out`:
+const HISTORIES: &[&str] = &[
+    "fresh list",
+    "collected the analysis of 京都 by a tokenizer with subset {}",
+    "collected the analysis of 京都 by a tokenizer with subset {SURFACE}",
+    "collected the analysis of 京都に by a tokenizer with subset {POS_ID}",
+    "collected the analysis of 東京都 by a tokenizer with all fields",
+    "filled by lookup(東京, {SURFACE})",
+    "collected a {SURFACE} analysis, then filled by lookup(東京都, {READING_FORM})",
+    "target of split_into(A) of a list analysed with the split fields only",
+    "target of split_into(A) of a list analysed with all fields",
+    "collected a {} analysis, then target of split_into(B) of a full-field list",
+    "target of a split of a full-field list, then collected a {NORMALIZED_FORM} analysis",
+];
+type ML<'a> = sudachi::analysis::mlist::MorphemeList<&'a JapaneseDictionary>;
+fn collect_into<'a>(dict: &'a JapaneseDictionary, text: &str, subset: Option<u32>, into: &mut ML<'a>) -> Result<(), String> {
+    let mut tok = StatefulTokenizer::new(dict, Mode::C);
+    if let Some(s) = subset {
+        tok.set_subset(InfoSubset::from_bits_truncate(s));
+    }
+    tok.reset().push_str(text);
+    tok.do_tokenize().map_err(|e| format!("{:?}", e))?;
+    into.collect_results(&mut tok).map_err(|e| format!("{:?}", e))
+}
+fn target_with_history<'a>(dict: &'a JapaneseDictionary, h: usize) -> Result<ML<'a>, String> {
+    use sudachi::analysis::mlist::MorphemeList;
+    let mut t = MorphemeList::empty(dict);
+    let split_of = |subset: Option<u32>, mode: Mode, t: &mut ML<'a>| -> Result<(), String> {
+        let mut l = MorphemeList::empty(dict);
+        collect_into(dict, "東京都", subset, &mut l)?;
+        l.split_into(mode, 0, t).map_err(|e| format!("{:?}", e))?;
+        Ok(())
+    };
+    match h {
+        0 => {}
+        1 => collect_into(dict, "京都", Some(0), &mut t)?,
+        2 => collect_into(dict, "京都", Some(1), &mut t)?,
+        3 => collect_into(dict, "京都に", Some(4), &mut t)?,
+        4 => collect_into(dict, "東京都", None, &mut t)?,
+        5 => {
+            t.lookup("東京", InfoSubset::from_bits_truncate(1)).map_err(|e| format!("{:?}", e))?;
+        }
+        6 => {
+            collect_into(dict, "京都", Some(1), &mut t)?;
+            t.lookup("東京都", InfoSubset::from_bits_truncate(32)).map_err(|e| format!("{:?}", e))?;
+        }
+        7 => split_of(Some(64 | 128), Mode::A, &mut t)?,
+        8 => split_of(None, Mode::A, &mut t)?,
+        9 => {
+            collect_into(dict, "京都", Some(0), &mut t)?;
+            split_of(None, Mode::B, &mut t)?;
+        }
+        _ => {
+            split_of(None, Mode::A, &mut t)?;
+            collect_into(dict, "京都", Some(8), &mut t)?;
+        }
+    }
+    Ok(t)
+}
+/// one analysis (mode C, requested subset `s` incl. at least one split field) whose morphemes are split into targets with
+/// every history, cleared or not; the parts are compared with the same split of a fresh full-field analysis into a fresh list.
+/// Returns (subset of the analysed list, subsets the targets report after a split that happened, first failure).
+fn history_case(dict: &JapaneseDictionary, text: &str, s: u32, verbose: bool) -> (u32, Vec<u32>, Option<String>) {
+    use sudachi::analysis::mlist::MorphemeList;
+    type Item = (usize, usize, u32, Vec<String>);
+    let r = catch(|| -> Result<(u32, Vec<u32>, Option<String>), String> {
+        let mut src = MorphemeList::empty(dict);
+        collect_into(dict, text, Some(s), &mut src)?;
+        let src_subset = src.subset().bits();
+        let mut full = MorphemeList::empty(dict);
+        collect_into(dict, text, None, &mut full)?;
+        let item = |x: &sudachi::analysis::morpheme::Morpheme<&JapaneseDictionary>| -> Item { (x.begin(), x.end(), x.word_id().as_raw(), accessors(&D2(x.get_word_info().clone()), s & !1 & !2)) };
+        let mut observed = vec![];
+        let mut bad: Option<String> = None;
+        if full.len() != src.len() {
+            return Ok((src_subset, observed, None)); // boundaries of the analysis itself: the tokenizer level's concern
+        }
+        for (bit, m, name) in [(64u32, Mode::A, "A"), (128u32, Mode::B, "B")] {
+            if s & bit == 0 {
+                continue;
+            }
+            for i in 0..src.len() {
+                let mut o2 = MorphemeList::empty(dict);
+                let did2 = full.split_into(m, i, &mut o2).map_err(|e| format!("{:?}", e))?;
+                let want: Vec<Item> = (0..o2.len()).map(|j| item(&o2.get(j))).collect();
+                for h in 0..HISTORIES.len() {
+                    for clear in [false, true] {
+                        let mut target = target_with_history(dict, h)?;
+                        if clear {
+                            target.clear();
+                        }
+                        let before = target.len();
+                        let before_subset = target.subset().bits();
+                        let did = src.split_into(m, i, &mut target).map_err(|e| format!("{:?}", e))?;
+                        let parts: Vec<Item> = (before..target.len()).map(|j| item(&target.get(j))).collect();
+                        let after_subset = target.subset().bits();
+                        if verbose {
+                            println!("split_into({}) of morpheme {} into a list that {}{}: {} {:?} (list subset {:#b} -> {:#b})", name, i, HISTORIES[h], if clear { ", cleared" } else { "" }, did, parts, before_subset, after_subset);
+                        }
+                        if did {
+                            observed.push(after_subset);
+                        }
+                        if bad.is_some() {
+                            continue;
+                        }
+                        let what = format!(
+                            "analysis of {:?} (mode C, requested subset {:#b}), split_into({}) of morpheme {} into a list that {}{} (its subset then: {:#b})",
+                            text, s, name, i, HISTORIES[h], if clear { ", cleared" } else { "" }, before_subset
+                        );
+                        if did != did2 || parts != want {
+                            bad = Some(format!("{}: {} {:?}; the same split of a fresh full-field analysis into a fresh list: {} {:?}", what, did, parts, did2, want));
+                        } else if did && after_subset != src_subset {
+                            bad = Some(format!("{}: the list reports the subset {:#b} afterwards, the list that was split {:#b}", what, after_subset, src_subset));
+                        } else if !did && (target.len() != before || after_subset != before_subset) {
+                            bad = Some(format!("{}: nothing to split, but the list changed", what));
+                        }
+                    }
+                }
+            }
+        }
+        if verbose {
+            println!("full-field analysis: {:?}", (0..full.len()).map(|j| item(&full.get(j))).collect::<Vec<_>>());
+        }
+        Ok((src_subset, observed, bad))
+    });
+    match r {
+        Ok(Ok(x)) => x,
+        Ok(Err(e)) => (0, vec![], Some(format!("analysis of {:?} with subset {:#b} and split into lists with a history fails: {}", text, s, e))),
+        Err(p) => (0, vec![], Some(format!("analysis of {:?} with subset {:#b} and split into lists with a history panicked: {}", text, s, p))),
+    }
+}
+fn history_level(sink: &mut Sink, rng: &mut Rng, n_random: usize) {
+    let dicts: Vec<(bool, JapaneseDictionary)> = [false, true].iter().filter_map(|rw| shipped_stack(*rw).ok().map(|d| (*rw, d))).collect();
+    if dicts.len() != 2 {
+        return;
+    }
+    let texts = ["東京都", "東京都京都に", "京都東京府に行く"];
+    // directed: whatever the seed
+    let mut todo: Vec<(usize, String, u32)> = vec![];
+    for (d, _) in dicts.iter().enumerate() {
+        for t in texts {
+            for s in [1023u32, 64 | 128 | 4 | 32, 64 | 128 | 13 | 512, 64 | 128, 64 | 13 | 16] {
+                todo.push((d, t.to_string(), s));
+            }
+        }
+    }
+    let vocab = ["東京都", "東京府", "東京都京都", "京都", "に", "行く", "すだち", "特急はくたか"];
+    for _ in 0..n_random {
+        let np = 1 + rng.below(3) as usize;
+        let t: String = (0..np).map(|_| *rng.pick(&vocab)).collect();
+        let s = (match rng.below(3) { 0 => 64, 1 => 128, _ => 192 }) | rng.below(1024) as u32;
+        todo.push((rng.below(2) as usize, t, s));
+    }
+    for (d, text, s) in todo {
+        let (rewrite, dict) = &dicts[d];
+        // with path-rewrite plugins the analysis itself is only comparable when the plugins see what they read
+        if *rewrite && (s & 13) != 13 {
+            continue;
+        }
+        let desc = json!({"kind": "c11-history", "rewrite": rewrite, "text": text, "subset": s});
+        let (src_subset, observed, bad) = history_case(dict, &text, s, false);
+        sink.tag("split_into_lists_with_a_history");
+        // model: the analysed list holds the tokenizer's subset (OpCollect); every target reports that subset after the split
+        let mut ops = vec![format!("OpSubset {} {}", cnu(0), cn(s)), format!("OpCollect {} {}", cnu(0), cn(src_subset))];
+        let mut obs = observed.clone();
+        obs.sort();
+        obs.dedup();
+        for o in obs {
+            ops.push(format!("OpCollect {} {}", cnu(0), cn(o)));
+        }
+        let id = sink.case(format!("check_c11_ops {} {}", clist([cn(2u32)]), clist(ops)), desc, true);
+        if let Some(b) = bad {
+            sink.fail(id, &b, "");
+        }
+    }
+}
+
 pub fn run(args: &Args) {
     let mut sink = Sink::new("C11", &args.out, &["Model.Codec", "Model.CodecIO", "Model.CodecCheck"], args.seed, &args.tier);
     sink.shard_size = 12;
-    sink.rule("(a) words of generated dictionaries: a system dictionary (also re-labelled as the format without synonym ids) or a system dictionary with TWO user dictionaries on top, the second with references from user words to user words (strings across the 127/128 prefix boundary, astral characters, forms empty / equal / different, arrays of 0..127 ids, own and foreign dictionary forms) x ALL 1024 requested subsets for some words and 40 sampled subsets (always incl. {}, {SURFACE}, {DIC_FORM_WORD_ID}, {NORMALIZED_FORM}, {READING_FORM}, each split alone, all) for the others: raw WordInfoData of LexiconSet::get_word_info_subset(normalize s) vs model, requested accessors vs full load; (b) analyses of texts over the shipped system dictionary with user2.csv and user1.csv compiled on top as dictionaries 1 and 2, with/without path-rewrite plugins x random subset x initial mode x mode x both orders of set_mode/set_subset vs the full-field analysis, and the tokenizer's resulting subset vs model; (c) sequences of 4..10 operations (set_mode, set_subset, analyse + collect_results) on two long-lived tokenizers sharing two MorphemeLists, every analysis vs a fresh full-field analysis in the same mode, the subset each list reports after a collection vs model; every case non-trivial except sequences with fewer than two analyses; distinct by generated Coq term");
+    sink.rule("(a) words of generated dictionaries: a system dictionary (also re-labelled as the format without synonym ids) or a system dictionary with TWO user dictionaries on top, the second with references from user words to user words (strings across the 127/128 prefix boundary, astral characters, forms empty / equal / different, arrays of 0/1/2/63/64/65/127 ids incl. directed lexicons with these lengths in every array field, own and foreign dictionary forms) x ALL 1024 requested subsets for some words and 40 sampled subsets (always incl. {}, {SURFACE}, {DIC_FORM_WORD_ID}, {NORMALIZED_FORM}, {READING_FORM}, each split alone, all) for the others: raw WordInfoData of LexiconSet::get_word_info_subset(normalize s) vs model, requested accessors vs full load; (b) analyses of texts over the shipped system dictionary with user2.csv and user1.csv compiled on top as dictionaries 1 and 2, with/without path-rewrite plugins x random subset x initial mode x mode x both orders of set_mode/set_subset vs the full-field analysis, and the tokenizer's resulting subset vs model; (c) sequences of 4..10 operations (set_mode, set_subset, analyse + collect_results) on two long-lived tokenizers sharing two MorphemeLists, every analysis vs a fresh full-field analysis in the same mode, the subset each list reports after a collection vs model; (d) MorphemeList::empty -> lookup(query, subset) -> split_into(A / B) vs the lexicon read with all fields; (e) split_into of the morphemes of an analysis (directed subsets x texts, and random ones) into target lists with a history (filled before by tokenizers with narrower / wider subsets, by lookup, by earlier splits, cleared or not) vs the same split of a fresh full-field analysis into a fresh list, on ranges, word ids, every requested field and the subset the target reports; every case non-trivial except sequences with fewer than two analyses; distinct by generated Coq term");
     let mut rng = Rng::new(args.seed);
     if let Some(p) = &args.replay {
         let v: Value = serde_json::from_str(&std::fs::read_to_string(p).unwrap()).unwrap();
@@ -849,6 +1036,10 @@ pub fn run(args: &Args) {
             let dict = shipped_stack(false).unwrap();
             let (_, bad) = lookup_route_case(&dict, case["query"].as_str().unwrap(), case["subset"].as_u64().unwrap() as u32, true);
             println!("verdict: {:?}", bad);
+        } else if case["kind"] == "c11-history" {
+            let dict = shipped_stack(case["rewrite"].as_bool().unwrap()).unwrap();
+            let (_, _, bad) = history_case(&dict, case["text"].as_str().unwrap(), case["subset"].as_u64().unwrap() as u32, true);
+            println!("verdict: {:?}", bad);
         } else if case["kind"] == "c11-seq" {
             let rw = case["rewrite"].as_bool().unwrap();
             let dict = shipped_stack(rw).unwrap();
@@ -862,7 +1053,7 @@ pub fn run(args: &Args) {
             let st = case["rng"].as_u64().unwrap();
             let user = case["user"].as_bool().unwrap();
             let dic = case["dic"].as_u64().unwrap_or(if user { 1 } else { 0 }) as u8;
-            let stk = gen_stack(st, user, &args.out);
+            let stk = gen_stack(st, user, case["special"].as_u64().map(|d| d as usize), &args.out);
             let c = &stk.c;
             println!("system csv:\n{}user csv (dictionary 1):\n{}user csv (dictionary 2):\n{}", c.sys_csv, c.user_csv, stk.u2.as_ref().map(|x| x.1.as_str()).unwrap_or(""));
             let sys_bytes = c05::compile_system(&c.sys_csv, &c.matrix_text, c.time, &c.descr).unwrap();
@@ -893,5 +1084,6 @@ pub fn run(args: &Args) {
     tokenizer_level(&mut sink, &mut rng, args.n(400, 6000));
     sequence_level(&mut sink, &mut rng, args.n(300, 4000));
     lookup_level(&mut sink, &mut rng, args.n(120, 1500));
+    history_level(&mut sink, &mut rng, args.n(20, 400));
     sink.finish();
 }
